@@ -99,6 +99,21 @@ pub fn run(a: &Args) {
             out.emit(e);
         }
     }
+    // received messages larger than 16 KiB whose names first appear around the largest offset a pointer can
+    // express (the recipes of the compression checks, sent uncompressed): re-serialised with compression, re-parsed
+    let mut ts: Vec<(usize, usize)> = (16368..16392).step_by(if thorough { 1 } else { 2 }).map(|t| (t, 0)).collect();
+    ts.extend([(12000, 0), (16384, 20000), (32768, 0)]);
+    for (t, pad) in ts {
+        if let Ok(p) = crate::proj::construct_packet(&crate::compress::big_recipe(t, pad)) {
+            if let Ok(m) = p.build_bytes_vec() {
+                if let Some(e) = reparse_event(&format!("reparse big first-late-name-at={}", if t < 16384 { "<16384" } else { ">=16384" }), &m) {
+                    st.case(&m, true);
+                    accepted += 1;
+                    out.emit(e);
+                }
+            }
+        }
+    }
     st.counters.insert("accepted_mutants".into(), accepted);
     // every header word: parse -> rebuild -> what the second parse would observe (HdrReparse rule)
     crate::hdr::emit_words(&mut out, &mut st, &[(0x4321, [1, 1, 0, 1])]);
